@@ -96,6 +96,79 @@ func varyStmts(ss []*lang.Stmt, r *rand.Rand, parenPct int) []*lang.Stmt {
 	return out
 }
 
+// dropNotParens removes one pair of parentheses that encloses a 'not' expression standing as the
+// operand of a sign or the right operand of a binary operator ("1 + (not x)" -> "1 + not x"). The
+// implementation takes a prefix 'not' wherever an operand may start, so the shorter text is a
+// rendering of the same program whenever it groups the same way; that is decided by the harness's
+// own parser (same shape with and without the pair), otherwise ok=false.
+func dropNotParens(toks []lang.Tok, r *rand.Rand) (out []lang.Tok, ok bool) {
+	isOp := func(t lang.Tok) bool {
+		if t.Kind != lang.TPunct {
+			return false
+		}
+		switch t.Text {
+		case "+", "-", "*", "/", "<", "<=", ">", ">=", "==", "!=":
+			return true
+		}
+		return false
+	}
+	var cands [][2]int
+	for i := 1; i+1 < len(toks); i++ {
+		if toks[i].Kind == lang.TPunct && toks[i].Text == "(" && toks[i+1].Kind == lang.TWord && toks[i+1].Text == "not" && isOp(toks[i-1]) {
+			depth := 0
+			for j := i; j < len(toks); j++ {
+				if toks[j].Kind == lang.TPunct && toks[j].Text == "(" {
+					depth++
+				} else if toks[j].Kind == lang.TPunct && toks[j].Text == ")" {
+					depth--
+					if depth == 0 {
+						cands = append(cands, [2]int{i, j})
+						break
+					}
+				}
+			}
+		}
+	}
+	if len(cands) == 0 {
+		return nil, false
+	}
+	pa, va := lang.Parse(toks)
+	if va.Kind == lang.Reject {
+		return nil, false
+	}
+	cd := cands[r.Intn(len(cands))]
+	for k, t := range toks {
+		if k != cd[0] && k != cd[1] {
+			out = append(out, t)
+		}
+	}
+	pb, vb := lang.Parse(out)
+	if vb.Kind == lang.Reject || pa.Shape() != pb.Shape() {
+		return nil, false
+	}
+	return out, true
+}
+
+// c20NotPairs: a prefix 'not' directly after a sign or a binary operator, with and without the
+// parentheses around it.
+func c20NotPairs() (pairs [][2]string) {
+	heads := []string{"+", "-", "+ -", "- +", "- -", "1 +", "1 -", "2 *", "8 /", "1 <", "1 <=", "1 >", "1 >=", "1 ==", "1 !=", "\"a\" +", "\"a\" *", "x +", "x ==", "nil ==", "true !="}
+	nots := []string{"not 5", "not 0", "not not 1", "not x", "not 1 == 2", "not 1 + 2", "not \"\"", "not nil", "not - 1"}
+	tails := []string{"", " and 3", " or 0", " and not 0"}
+	for _, h := range heads {
+		for _, n := range nots {
+			for _, t := range tails {
+				with := h + " (" + n + ")" + t
+				without := h + " " + n + t
+				pairs = append(pairs, [2]string{"var x = 2\nprint " + with + "\n", "var x = 2\nprint " + without + "\n"})
+				pairs = append(pairs, [2]string{"var x = 2\ndef b { f = " + with + " }\n", "var x = 2\ndef b { f = " + without + " }\n"})
+				pairs = append(pairs, [2]string{"var x = 2\nprint (" + with + ") == 1\n", "var x = 2\nprint (" + without + ") == 1\n"})
+			}
+		}
+	}
+	return pairs
+}
+
 type rendering struct {
 	src  []byte
 	what string
@@ -194,7 +267,7 @@ func init() {
 		Level: "exploration",
 		Rule: "metamorphic monitor (layout A vs layout B): each program gets a canonical rendering and k hostile ones: every separator kind (SP TAB VT FF CR LF CRLF U+0085 U+00A0, none where tokens may touch), comments with quotes/keywords/#/non-ASCII/raw bytes/NUL ended by CR, LF or end of input, ';' added after any statement and dropped where the next one cannot continue it, redundant parentheses around arbitrary sub-expressions. " +
 			"Compared with the canonical rendering: code and constants (from the program's parts), output, blocks, binding, error and diagnostic classes (positions excluded). Rejected programs (token-damaged) get whitespace/comment variation only. String literals with '#', ';', parentheses and every whitespace kind inside must reach the value byte for byte. " +
-			"distinct = hash of rendering; non-trivial = rendering differs from the canonical one and the pair was compared Also: every rendering is parsed through ParseFile in 1-3 random chunks and must compile to the same code; value-less literals and block names are generated and a rejected program must stay rejected under parenthesis / ';' variation; 70000-byte comments and whitespace runs (whole and through 4096-byte pages), 100..4000 redundant parentheses.",
+			"distinct = hash of rendering; non-trivial = rendering differs from the canonical one and the pair was compared Also: every rendering is parsed through ParseFile in 1-3 random chunks and must compile to the same code; value-less literals and block names are generated and a rejected program must stay rejected under parenthesis / ';' variation; 70000-byte comments and whitespace runs (whole and through 4096-byte pages), 100..4000 redundant parentheses; parentheses dropped around a 'not' operand that follows a sign or a binary operator wherever the harness's parser groups both texts alike (2268 fixed pairs and the generated programs).",
 		Assumptions:   []string{"whole-input Parse (chunking is C07's matter)", "the independent separator-needed predicate decides where tokens may touch"},
 		MinNontrivial: 1000,
 		Run: func(c *core.Ctx) {
@@ -248,6 +321,11 @@ func init() {
 						vp := &lang.Program{Stmts: varyStmts(p.Stmts, r, []int{5, 15, 40}[r.Intn(3)])}
 						vt := lang.Flatten(vp)
 						rs = append(rs, rendering{lang.Layout(vt, hostileLayout(r), r).Src, "layout+semicolons+parentheses"})
+					}
+				}
+				if !damaged {
+					if vt, ok := dropNotParens(toks, r); ok {
+						rs = append(rs, rendering{lang.Layout(vt, hostileLayout(r), r).Src, "parentheses_dropped_before_not"})
 					}
 				}
 				for _, rd := range rs {
@@ -351,6 +429,41 @@ func init() {
 				}
 				c.Count("extreme_layout_renderings", 1)
 				c.Nontrivial(core.Hash("extreme", k))
+			}
+			// a prefix 'not' right after a sign or a binary operator, with and without parentheses around it
+			for k, pr := range c20NotPairs() {
+				i := n + 2000000 + int64(k)
+				if !c.Mine(i) {
+					continue
+				}
+				ta, oka := lang.Lex(pr[0])
+				tb, okb := lang.Lex(pr[1])
+				if !oka || !okb {
+					c.Inconclusive("harness: a fixed pair does not lex: " + pr[0])
+					continue
+				}
+				pa, va := lang.Parse(ta)
+				pb, vb := lang.Parse(tb)
+				if va.Kind == lang.Reject || vb.Kind == lang.Reject || pa.Shape() != pb.Shape() {
+					c.Count("not_pairs_grouping_differently_skipped", 1)
+					continue
+				}
+				c.Begin(i)
+				c.NoteInput("canon", []byte(pr[0]))
+				base := compileAndRun([]byte(pr[0]))
+				got := compileAndRun([]byte(pr[1]))
+				c.Eval(2)
+				if base.pan != "" || got.pan != "" {
+					c.Violation(base.pan+got.pan, "panic on a fixed 'not' pair: "+base.panWhat+got.panWhat, map[string]any{"with": pr[0], "without": pr[1]})
+					continue
+				}
+				if d := diffCompiled(base, got); d != "" {
+					c.Violation("layout-changes-meaning:"+stripDigits(core.Trunc(d, 30)), "a 'not' operand with and without redundant parentheses differs: "+d,
+						map[string]any{"canonical": pr[0], "rendering": pr[1], "variation": "parentheses_dropped_before_not"})
+					continue
+				}
+				c.Count("renderings_compared_parentheses_dropped_before_not", 1)
+				c.Nontrivial(core.Hash(pr[1]))
 			}
 			// string contents are not layout
 			base := n
